@@ -52,14 +52,24 @@ def sd2(F, R):
     b, i, s = frames[0]
     fl = s["p"]["l"]
     ops = [fn.term_of_operand(o, b) for o in s["rv"]["ops"]]
-    cmd = ("arg", "command")
-    arg = ("arg", "arg")
+    cmd = ("arg", 2)
+    arg = ("arg", 3)
     ok0 = tmatch(ops[0], ("bin", "BitOr", ("c", 0x40), cmd)) is not None or tmatch(ops[0], ("bin", "BitOr", cmd, ("c", 0x40))) is not None
     R.require(ok0, fn, "byte0", "frame byte 0 must be 0x40 | command (start bit 0, transmission bit 1), got %s" % tstr(ops[0]), fn.loc(b, i))
+    def be_byte(t, k):
+        """t is byte k (0 = most significant) of the 32-bit argument: (arg >> 8*(3-k)) as u8, or arg.to_be_bytes()[k]"""
+        sh = 8 * (3 - k)
+        if sh and tmatch(t, ("cast", ("bin", "Shr", arg, ("c", sh)))) is not None and t[1] == "u8":
+            return True
+        if not sh and tmatch(t, ("cast", arg)) is not None and t[1] == "u8":
+            return True
+        if sh and tmatch(t, ("cast", ("bin", "BitAnd", ("bin", "Shr", arg, ("c", sh)), ("c", 0xFF)))) is not None:
+            return True
+        return (t[0] == "place" and tmatch(t[1], ("call", "to_be_bytes", [arg])) is not None and len(t[2]) == 1
+                and isinstance(t[2][0], tuple) and t[2][0][0] == "idx" and t[2][0][1][:2] == ("c", k))
     for k, sh in ((1, 24), (2, 16), (3, 8)):
-        ok = tmatch(ops[k], ("cast", ("bin", "Shr", arg, ("c", sh)))) is not None
-        R.require(ok, fn, "byte%d" % k, "frame byte %d must be (arg >> %d) as u8, got %s" % (k, sh, tstr(ops[k])), fn.loc(b, i))
-    R.require(tmatch(ops[4], ("cast", arg)) is not None, fn, "byte4", "frame byte 4 must be arg as u8, got %s" % tstr(ops[4]), fn.loc(b, i))
+        R.require(be_byte(ops[k], k - 1), fn, "byte%d" % k, "frame byte %d must be (arg >> %d) as u8, got %s" % (k, sh, tstr(ops[k])), fn.loc(b, i))
+    R.require(be_byte(ops[4], 3), fn, "byte4", "frame byte 4 must be arg as u8, got %s" % tstr(ops[4]), fn.loc(b, i))
     # crc store: frame[5] = crc7(&frame[0..5])
     stores = [(bb, ii, ss) for bb, ii, ss in fn.stmts() if ss["k"] == "Assign" and ss["p"]["l"] == fl and ss["p"]["proj"]]
     okc = False
@@ -95,7 +105,7 @@ def sd3(F, R):
                 return True
             if g.kind == "bool" and g.term[0] == "cmp" and g.term[1] == "Eq" and g.truth is True:
                 a, bb = g.term[2], g.term[3]
-                if a == ("arg", 2, "command") and bb[0] == "c" and bb[2] and bb[2].split("::")[-1] in ("CMD0", "CMD12"):
+                if a[:2] == ("arg", 2) and bb[0] == "c" and bb[2] and bb[2].split("::")[-1] in ("CMD0", "CMD12"):
                     return True
             return False
         ok, _ = guarded(fn, b, pr)
@@ -122,7 +132,7 @@ def sd4(F, R):
         (b1, t1), (b2, t2) = calls
         a1 = [fn.term_of_operand(a, b1) for a in t1["args"]]
         a2 = [fn.term_of_operand(a, b2) for a in t2["args"]]
-        ok = cmd_const(a1[1])[0] == "CMD55" and a1[2][:2] == ("c", 0) and a2[1] == ("arg", 2, "command") and a2[2] == ("arg", 3, "arg")
+        ok = cmd_const(a1[1])[0] == "CMD55" and a1[2][:2] == ("c", 0) and a2[1][:2] == ("arg", 2) and a2[2][:2] == ("arg", 3)
         ok = ok and guarded(fn, b2, g_try_ok("SdCardInner::card_command"))[0]
         # nothing else on the bus in between
         others = [c for bb, c in fn.calls() if c not in (t1, t2) and not is_log_call(c) and (callee_of(c) or "").startswith("sdcard::")]
@@ -320,9 +330,10 @@ def sd7(F, R):
                     label.append("=%s" % g.value)
                 else:
                     label.append("not%s" % g.others)
-            if tmatch(val, ("bin", "Mul", ("place", ("arg", "start_block_idx"), ("0",)), ("c", 512))) is not None:
+            from .poly import peq, MUL, C
+            if peq(val, MUL(("arg", 3, None), C(512))):
                 form = "idx*512"
-            elif tmatch(val, ("place", ("arg", "start_block_idx"), ("0",))) is not None:
+            elif peq(val, ("arg", 3, None)):
                 form = "idx"
             else:
                 form = tstr(val)
@@ -423,7 +434,7 @@ def sd9(F, R):
             (b1, t1), (b2, t2) = trs
             a1 = fn.term_of_operand(t1["args"][1], b1)
             a2 = fn.term_of_operand(t2["args"][1], b2)
-            ok_seq = strip_refs(a1) == ("arg", 2, "buffer") and fn.dominates(b1, b2) and fn.dominates(b2, b)
+            ok_seq = strip_refs(a1)[:2] == ("arg", 2) and fn.dominates(b1, b2) and fn.dominates(b2, b)
             # second buffer is a 2-byte array
             r2 = strip_refs(a2)
             ok_seq = ok_seq and r2[0] == "var" and fn.locals[r2[1]]["ty"] == "[u8; 2]"
@@ -433,7 +444,7 @@ def sd9(F, R):
     for bb, t in fn.calls():
         if call_matches(t, ("sdcard::proto::crc16",)):
             a = fn.term_of_operand(t["args"][0], bb)
-            R.require(strip_refs(a) == ("arg", 2, "buffer") or "buffer" in tstr(a), fn, "crc-over-buffer", "crc16 must be computed over the received buffer", fn.loc(bb))
+            R.require(strip_refs(a)[:2] == ("arg", 2), fn, "crc-over-buffer", "crc16 must be computed over the received buffer", fn.loc(bb))
 
 
 @rule("SD10", ["C13", "C14"], floor=4,
@@ -458,14 +469,14 @@ def sd10(F, R):
     names = [s[1] for s in seq]
     ok = names == ["write_byte", "write_bytes", "write_bytes", "read_byte"]
     if ok:
-        ok = seq[0][2][0] == ("arg", 2, "token") and strip_refs(seq[1][2][0]) == ("arg", 3, "buffer")
+        ok = seq[0][2][0][:2] == ("arg", 2) and strip_refs(seq[1][2][0])[:2] == ("arg", 3)
         ok = ok and all(fn.dominates(seq[k][0], seq[k + 1][0]) for k in range(3))
         crcv = strip_refs(seq[2][2][0])
         okc = False
         if crcv[0] == "var":
             defs = var_def_terms(fn, crcv[1])
             ds = sorted(tstr(d) for d in defs)
-            okc = len(defs) == 2 and any(tmatch(d, ("call", "to_be_bytes", [("call", "sdcard::proto::crc16", [("deref*", ("arg", "buffer"))])])) is not None for d in defs) and any(tmatch(d, ("agg", "_", [("c", 0xFF), ("c", 0xFF)])) is not None for d in defs)
+            okc = len(defs) == 2 and any(tmatch(d, ("call", "to_be_bytes", [("call", "sdcard::proto::crc16", [("deref*", ("arg", 3))])])) is not None for d in defs) and any(tmatch(d, ("agg", "_", [("c", 0xFF), ("c", 0xFF)])) is not None for d in defs)
             # the CRC variant is selected exactly when use_crc is set
             for df in fn.defs().get(crcv[1], []):
                 dterm = fn.term_of_rvalue(df[3], df[1]) if df[0] == "assign" else fn.call_term(df[2], df[1])
